@@ -65,6 +65,7 @@ def parseOp (toks : List String) : Option Op :=
   | ["clone", r, k] => do let r ← parseCRef r; let k ← parseIdx "h" k; pure (.clone r k)
   | ["drop", k] => do let k ← parseIdx "h" k; pure (.drop k)
   | ["setf", n, s, r] => do let n ← parseNRef n; let s ← parseSlot s; let r ← parseCRef r; pure (.setf n s r)
+  | ["movef", n, s, k] => do let n ← parseNRef n; let s ← parseSlot s; let k ← parseIdx "h" k; pure (.movef n s k)
   | ["clrf", n, s] => do let n ← parseNRef n; let s ← parseSlot s; pure (.clrf n s)
   | ["takef", n, s, k] => do let n ← parseNRef n; let s ← parseSlot s; let k ← parseIdx "h" k; pure (.takef n s k)
   | ["getf", n, s, k] => do let n ← parseNRef n; let s ← parseSlot s; let k ← parseIdx "h" k; pure (.getf n s k)
@@ -169,7 +170,7 @@ def runC (c : Cfg) : Nat → Nat → World → World
     else if w.mode = .aborted ∨ w.mode = .stuck then w
     else
       let w' := step c w
-      if n ≥ 32 then runC c fuel 0 w'.compact else runC c fuel (n + 1) w'
+      if n ≥ 16 then runC c fuel 0 w'.compact else runC c fuel (n + 1) w'
 
 def execTopC (c : Cfg) (fuel : Nat) (w : World) (op : Op) : World :=
   if w.mode = .aborted ∨ w.mode = .stuck then w
